@@ -295,6 +295,14 @@ single-threaded one. Fact re-extracted from the source. -/
 theorem invalidation_is_unconditional :
     Gen.Fleet.invalidateUnconditional = true ∧ Gen.Fleet.asyncInvalidateUnconditional = true := by decide
 
+/-- The model has no clock: an attempt ends when the node's behaviour says so (a reply, a close, the
+node's own timeout). That is faithful only if the code has no timer of its own: the four loops sleep
+once per retry for the configured delay and pass the node's timeout to the client call, `health_check`
+uses its one constant, and nothing else in them, in `ensure_connected`, `invalidate_client` or
+`broadcast_json` waits, compares instants or wraps a call in a timeout. Fact re-extracted from the source. -/
+theorem no_timers_of_its_own :
+    Gen.Fleet.noExtraTimers = true ∧ Gen.Fleet.asyncNoExtraTimers = true := by decide
+
 /-- The two places where the model abstracts code that is not a loop: `ensure_connected` returns the
 cached client as it is or connects once and stores the client (the `Cache` transitions of `attempt`),
 and `broadcast_json` inserts every worker's result under the name of the node the call was made to
